@@ -49,7 +49,7 @@ def main():
             meta = json.load(open(mf))
             if sel and not any(s in meta['id'] for s in sel):
                 continue
-            if meta.get('obsolete'):
+            if meta.get('obsolete') or meta.get('disputed'):
                 continue        # a later fix: commit removed the hazard this change needed (kept for the record, see meta.json)
             jobs.append((meta['id'], os.path.join(os.path.dirname(mf), 'patch.diff'), [meta['breaks_property']], mf))
     elif mode == 'benign':
